@@ -1,6 +1,7 @@
 (** C08 - row iterators behave as an ideal double-ended exact-size sequence. *)
 From TD Require Import Base.Prelude Model.Iter Model.View Model.IterRun Spec.Ideal
-  Proofs.RowsSim Proofs.ColSim Proofs.IterHistory Proofs.ViewGeom.
+  Proofs.RowsSim Proofs.ColSim Proofs.IterHistory Proofs.ViewGeom
+  Model.BigIter Model.BigIterRun Spec.BigIterSpec Proofs.BigIterRefine Proofs.BigIterStep.
 
 (** [rows()] / [rows_mut()] of any well-formed receiver (owned array, view, mutable view,
     any window, stride >= width, empty) start as the ideal sequence of its row slices *)
@@ -15,7 +16,7 @@ Print Assumptions C08_rows_start.
 Theorem C08_step :
   forall dbg it l c, rows_sim it l ->
   exists y s' q', icall_step dbg (SRows it) c = Ok (y, s') /\
-                  ideal_call (QRows l) c = (y, q') /\ st_sim s' q'.
+                  Ideal.ideal_call (QRows l) c = (y, q') /\ st_sim s' q'.
 Proof. intros dbg it l c H. exact (step_sim dbg (SRows it) (QRows l) c H (call_ok_not_cells (SRows it) c eq_refl)). Qed.
 Print Assumptions C08_step.
 
@@ -25,7 +26,7 @@ Theorem C08_history :
   forall dbg mutable calls k it l b, rows_sim it l ->
   exists o s' q' b',
     icalls dbg mutable k (SRows it) calls b = Ok (o, s', b') /\
-    ideal_calls mutable k (QRows l) calls b = (o, q', b') /\ st_sim s' q'.
+    Ideal.ideal_calls mutable k (QRows l) calls b = (o, q', b') /\ st_sim s' q'.
 Proof. intros dbg mu calls k it l b H. exact (history_sim dbg mu calls k (SRows it) (QRows l) b H (calls_ok_not_cells (SRows it) calls eq_refl)). Qed.
 Print Assumptions C08_history.
 
@@ -42,6 +43,51 @@ Theorem C08_rows_disjoint :
   off w1 + len w1 <= off w2.
 Proof. exact view_rows_disjoint. Qed.
 Print Assumptions C08_rows_disjoint.
+
+(** the same code paths over binary numbers (Model/BigIter.v), so that arrays of 2^32 x 2^31
+    cells - which zero-sized elements make real - are inside the executable model: each
+    function computes what its unary counterpart computes, for every state and every n *)
+Theorem C08_binary_model_is_the_model :
+  (forall it, rmap rows_res (brows_next it) = rows_next (rows_of it)) /\
+  (forall it, rmap rows_res (brows_next_back it) = rows_next_back (rows_of it)) /\
+  (forall it n, rmap rows_res (brows_nth it n) = rows_nth (rows_of it) n) /\
+  (forall it n, rmap rows_res (brows_nth_back it n) = rows_nth_back (rows_of it) n) /\
+  (forall it, N.to_nat (brows_len it) = rows_len (rows_of it)) /\
+  (forall v, rmap rows_of (bv_rows v) = v_rows (view_of_b v)) /\
+  (forall k mu p s0 s1 e0 e1, rmap view_of_b (bview_of k mu p s0 s1 e0 e1) = view_of k mu (view_of_b p) s0 s1 e0 e1).
+Proof.
+  repeat split; [exact rows_next_ref|exact rows_next_back_ref|exact rows_nth_ref|exact rows_nth_back_ref
+                |exact rows_len_ref|exact v_rows_ref|exact view_of_ref].
+Qed.
+Print Assumptions C08_binary_model_is_the_model.
+
+(** rows() / rows_mut() of a well-formed receiver of ANY size, then ANY finite history of
+    next / next_back / nth(n) / nth_back(n) / len with every n : N: the model never fails,
+    and what it prints is what the ideal sequence prints, stated as two counters (items
+    taken from the front and from the back of [num_rows] rows of [num_cols] cells) - no
+    stride, no product that could overflow.  This is the oracle family 10 evaluates. *)
+Theorem C08_any_size_any_history :
+  forall (v : bview) cs, wf_view (view_of_b v) ->
+  exists it o s', bv_rows v = Ok it /\ bcalls (BRows it) cs = Ok (o, s') /\
+    o = fst (BigIterSpec.ideal_calls (bvrows v) [bvcols v] false (0%N, 0%N) cs).
+Proof. exact big_rows_end_to_end. Qed.
+Print Assumptions C08_any_size_any_history.
+
+(** non-vacuity at the sizes the unary model cannot write down: a one-column window of a
+    2^32 x 2^31 array (stride 2^32, 2^31 rows); nth(2^32) - whose product with the stride is
+    2^64 - exhausts it, nth(5) does not *)
+Example C08_example_huge :
+  let v := mkBview (mkBsl 7 9223372032559808513) 1 2147483648 4294967296 in
+  wf_view (view_of_b v) /\
+  (it <- bv_rows v ;; r <- brows_nth it 4294967296 ;; Ok (fst r, brows_len (snd r))) = Ok (None, 0%N) /\
+  (it <- bv_rows v ;; r <- brows_nth it 5 ;; Ok (fst r, brows_len (snd r)))
+    = Ok (Some (mkBsl 21474836487 1), 2147483642%N).
+Proof.
+  split; [|split; vm_compute; reflexivity].
+  unfold wf_view, view_of_b, sl_of, W. cbn [vw vrows vcols vstride len off bvw bvrows bvcols bvstride boff blen].
+  split; [lia|].
+  replace (N.to_nat 2147483648) with (S (N.to_nat 2147483647)) by lia. lia.
+Qed.
 
 (** non-vacuity: a 2x3 window of a 4-wide parent; nth(usize::MAX) empties it *)
 Example C08_example :
